@@ -202,6 +202,25 @@ func bandRuns(lg *sim.Log, e0 *sim.Env, a1, a3 uint64, rng *sim.Rng, seed int64,
 			prevW[a] = s.W
 		}
 		for k := 0; k < steps; k++ {
+			if r%2 == 1 && k > 0 && rng.Intn(14) == 0 {
+				// governance installs a new fetch-price configuration (other window size / accepted gap) through the keeper entry point the
+				// proposal handler calls: every window is dropped, the cadence restarts
+				n = uint64(1 + rng.Intn(5))
+				gap = int64(1 + rng.Intn(3))
+				if err := e.App.BandoracleKeeper.AddFetchPriceRecords(e.Ctx, bandtypes.MsgFetchPriceData{OracleScriptID: 12, SourceChannel: "channel-0", AskCount: 1, MinCount: 1,
+					TwaBatchSize: n, AcceptedHeightDiff: gap * cyc, FeeLimit: sdk.NewCoins()}); err != nil {
+					panic(err)
+				}
+				e.App.BandoracleKeeper.SetLastBlockHeight(e.Ctx, 1) // keep the cadence phase of the fixture (heights divisible by 20)
+				nb := projectBand(e, gap)
+				for _, a := range []uint64{a1, a3} {
+					s := project(e, a, gap, cyc)
+					par[a] = lg.Add(par[a], run, "Reconfig", map[string]interface{}{"kind": "none", "r": 0, "rL": []int64{}, "dh": 0, "n": n, "gap": gap, "unit": cyc, "asset": a},
+						nil, map[string]interface{}{"pre": prevW[a], "w": s.W, "preb": prevB, "b": nb, "panic": false, "panicS": "", "calcErr": s.CalcErr, "getErr": s.GetErr})
+					prevW[a] = s.W
+				}
+				prevB = nb
+			}
 			kind := []string{"full", "full", "full", "full", "none", "ack"}[rng.Intn(6)]
 			sample := func() uint64 {
 				switch x := rng.Intn(10); {
